@@ -12,7 +12,7 @@ import json,re,sys
 base=set(json.load(open('/root/.vp/BASELINE.json'))['stable_pass'])
 txt=open(sys.argv[1]).read()
 passed=set(); failed=set()
-for m in re.finditer(r'^\s+(PASS|FAIL|TIMEOUT|SIGABRT|SIGSEGV)\s+\[[^\]]*\]\s+(\S+)\s+(\S+)', txt, re.M):
+for m in re.finditer(r'^\s+(PASS|FAIL|TIMEOUT|SIGABRT|SIGSEGV)\s+\[[^\]]*\]\s+(?:\(\s*\d+/\d+\)\s+)?(\S+)\s+(\S+)', txt, re.M):
     name=m.group(2)+'::'+m.group(3)
     (passed if m.group(1)=='PASS' else failed).add(name)
 missing=[b for b in base if b in failed]
